@@ -130,15 +130,19 @@ def _worker(cfg):
             _, strict, _ = histcheck.run_history(None, st, dialect, packets, strict=True, subs=subs)
             fault_kinds = [packets[i][2].get('fault', packets[i][2]['kind']) for i in failed]
             clean_only = all(k in CLEAN for k in fault_kinds)
+            # failing packets that are allowed to leave a partial effect in the unchanged design:
+            # a player-creation packet on an already known entity, a pose copy from an entity
+            # whose type lacks a volatile; everything else must leave the world as it was
+            world_clean = all(k in CLEAN or k in DIRTY for k in fault_kinds)
             case = {'key': key, 'dialect': dialect, 'packets': len(packets), 'faults': len(faults), 'failed': len(failed),
                     'fault_kinds': fault_kinds, 'entities': len(h.world)}
             out['cases'].append(case)
             problem = None
             # (a) lenient continues and matches the run of the stream without the failing packets
-            if clean_only:
+            if world_clean:
                 filtered = [p for i, p in enumerate(packets) if i not in failed]
                 _, lf, _ = histcheck.run_history(None, st, dialect, filtered, strict=False, subs=subs)
-                if lf['world'] != lenient['world'] or lf['log'] != lenient['log']:
+                if lf['world'] != lenient['world'] or (clean_only and lf['log'] != lenient['log']):
                     problem = 'lenient result differs from playing the stream without the %d failing packets: %s' % (
                         len(failed), histcheck.compare_worlds(lenient['world'], lf['world']) or histcheck.first_log_diff(lenient['log'], lf['log']))
                 if lf.get('end') != 'finished':
